@@ -23,8 +23,8 @@ i) every comparison leaf of WHERE becomes a row condition: in ConditionEvaluator
 j) the event-at-a-time evaluation of a numeric condition (memtable rows) reads the field through the same kinds as the columnar one (i64, u64, f64): NumericCondition::evaluate_event_direct and
    evaluate_at are siblings; a kind only one of them reads gives different answers before and after FLUSH.
 """
-FLOOR = 17
-REQUIRED = ["C02.a1", "C02.a2", "C02.a3", "C02.a4", "C02.b", "C02.c", "C02.d", "C02.e1", "C02.e2", "C02.f", "C02.g", "C02.h", "C02.i", "C02.j", "C02.k", "C02.l", "C02.m"]
+FLOOR = 18
+REQUIRED = ["C02.a1", "C02.a2", "C02.a3", "C02.a4", "C02.b", "C02.c", "C02.d", "C02.e1", "C02.e2", "C02.f", "C02.g", "C02.h", "C02.i", "C02.j", "C02.k", "C02.l", "C02.m", "C02.n"]
 
 SUPERSET = r"(collect_zones_for_scope|create_all_zones_for_segment_from_meta(_cached)?)$"
 
@@ -471,6 +471,30 @@ def run(ctx):
             raise AnchorMissing("a negative-literal exit on the u64 lane in the row filters")
         return bad
     ctx.run("C02.m", "K11 SIB + K8", "evaluate_numeric_simd / NumericCondition::evaluate_at (u64 lane)", "a negative literal against an unsigned column is answered per operator", m_)
+
+    def n_(inst):
+        """ZoneCollector de-duplicates the leaves of a WHERE tree by filter_key and caches their candidate zones under it: two different
+        leaves with one key are answered with the first leaf's zones. The key must therefore contain the literal as a whole: on the
+        Utf8 arm of filter_key the text pushed into the key is the literal itself - never a slice, prefix, length or hash of it."""
+        bad = []
+        b = F.fn("filter::filter_group::filter_key")
+        sw = [(i_, si) for i_, si in enum_switches_on(b, lambda L: has_origin(L, "param", "value"), r"ScalarValue$")]
+        if not sw:
+            raise AnchorMissing("match on the literal's ScalarValue in filter_key")
+        a = arms(b, sw[0][0])
+        ub = a.get("Utf8", set())
+        if not ub:
+            raise AnchorMissing("the Utf8 arm of filter_key")
+        pushes = [c for c in b.calls if not c.cleanup and c.bb in ub and re.search(r"String::push_str$|fmt::Write>::write_fmt$|String::push$|String::extend", c.nname)]
+        cuts = [c for c in b.calls if not c.cleanup and c.bb in ub and re.search(r"ops::Index|str::get$|split_at$|char_indices$|Chars|is_char_boundary$|truncate$|Iterator::take$|str::len$|hash", c.nname, re.I)]
+        whole = [c for c in pushes if c.nname.endswith("String::push_str") and any(l[0] == "param" and l[1] == "value" for l in b.origins(c.args[1]))]
+        inst.sites = [sp(b, sw[0][0])] + [sp(b, c.bb) for c in whole] + ["partial views of the literal on the Utf8 arm: %s" % sorted({c.nname.split("::")[-1] for c in cuts})]
+        if cuts:
+            bad.append(("filter-key-abbreviates-literal", "filter_key builds the key of a string literal from a part of it (%s): two long literals that agree on that part share one key and the second one is answered with the first one's candidate zones" % sorted({c.nname.split("::")[-1] for c in cuts}), sp(b, cuts[0].bb)))
+        if not whole and not cuts:
+            bad.append(("filter-key-without-literal", "the Utf8 arm of filter_key does not push the literal itself into the key", sp(b, sw[0][0])))
+        return bad
+    ctx.run("C02.n", "K7 PROV", "filter::filter_group::filter_key", "the cache key of a filter contains its literal as a whole", n_)
 
     def l_(inst):
         """String conditions read a row through get_str_at. Memtable rows render a bool value as "true" / "false"; a flushed bool column
